@@ -128,6 +128,7 @@ func (m *M) callFn(fn *ssa.Function, args []Value, env []Value, retTo ssa.Value,
 		ex.StubHit["replace "+name+" => "+target] ++
 		ex.mu.Unlock()
 		m.pushFrame(tf, args, nil, retTo, isDefer)
+		m.st.top().Atomic = true
 		return
 	}
 	// 3. intrinsics
